@@ -305,6 +305,69 @@ def run(tier: str, seed: int) -> int:
             rep.distinct.add(("root", scope, local_root, pool_root, valid, otype))
     rep.transitions += rc
     rep.sections["root_cells"] = rc
+
+    # ---------------- the real chain comparison / transfer over a backing-chain table ----------------
+    import unittest.mock as mock
+    from virttest.utils_params import Params
+
+    cc = 0
+    chains = {"s3": "s2", "s2": "s1", "s1": ""}
+    for top, images, otype in itertools.product(("s1", "s2", "s3"), (("image1",), ("image1", "image2")), ("nets/vms/images", "nets/vms")):
+        chain = []
+        st = top
+        while st:
+            chain.append(st)
+            st = chains[st]
+        files = []
+        for i, st in enumerate(chain):
+            for im in images:
+                files.append(f"vm1-id/{im}/{st}.qcow2")
+            if i == 0 and otype == "nets/vms":
+                files.append(f"vm1-id/{st}.state")
+        for differing in [()] + [(f,) for f in files] + ([tuple(files[:2])] if len(files) > 1 else []):
+            cc += 1
+            log = []
+
+            class Ops:
+                @staticmethod
+                def compare(cache_path, pool_path, params):
+                    rel = cache_path.split("/cache/")[1]
+                    log.append(("compare", rel, pool_path))
+                    return rel not in differing
+
+                @staticmethod
+                def download(cache_path, pool_path, params):
+                    log.append(("download", cache_path.split("/cache/")[1], pool_path))
+
+                @staticmethod
+                def upload(cache_path, pool_path, params):
+                    log.append(("upload", cache_path.split("/cache/")[1], pool_path))
+
+            p = Params({"object_id": "vm1-id", "images": " ".join(images), "object_type": otype, "vms": "vm1", "swarm_pool": "/cache"})
+            with mock.patch.object(pool.QCOW2ImageTransfer, "ops", Ops), \
+                    mock.patch.object(pool.QCOW2ImageTransfer, "get_dependency", classmethod(lambda cls, state, params: chains[state])):
+                same = pool.QCOW2ImageTransfer.compare_chain(top, "/cache", "/pool", p)
+                compared = [l[1] for l in log]
+                del log[:]
+                pool.QCOW2ImageTransfer.transfer_chain(top, "/cache", "/pool", p, down=True)
+                downloaded = [l[1] for l in log if l[0] == "download"]
+                pool_paths = {l[2] for l in log}
+                del log[:]
+                pool.QCOW2ImageTransfer.transfer_chain(top, "/cache", "/pool", p, down=False)
+                uploaded = [l[1] for l in log if l[0] == "upload"]
+            rep.transitions += 3
+            inp = {"top": top, "images": list(images), "object_type": otype, "differing": list(differing)}
+            if same != (len(differing) == 0):
+                rep.violation(f"chain of {top} {otype} images={images} with differing files {differing}: compare_chain={same}", inp, {"part": "chain", "kind": "compare"})
+            if differing and not set(compared) >= set(differing[:1]):
+                rep.violation(f"chain comparison never looked at the differing file {differing[0]} (compared {compared})", inp, {"part": "chain", "kind": "compare-coverage"})
+            if sorted(downloaded) != sorted(files) or sorted(uploaded) != sorted(files):
+                rep.violation(f"chain transfer of {top} {otype} images={images}: downloaded {downloaded}, uploaded {uploaded}, the backing chain consists of {files}", inp, {"part": "chain", "kind": "transfer"})
+            if any(not pp.startswith("/pool/vm1-id/") for pp in pool_paths):
+                rep.violation(f"chain transfer used pool paths outside the pool location: {sorted(pool_paths)[:3]}", inp, {"part": "chain", "kind": "paths"})
+            rep.distinct.add(("chain", top, images, otype, differing))
+    rep.sections["chain_cells"] = cc
+    cells += cc
     rep.states = cells + rc
     rep.evaluations = rep.transitions
     rep.traces_validated = rep.transitions
